@@ -462,21 +462,21 @@ func TestPropEventsSmallChains(t *testing.T) {
 }
 
 func TestPropEventsAcrossWindow(t *testing.T) {
-	stats.Check(t, stats.Budget{Quick: 30, Thorough: 1500}, rule, func(rt *rapid.T, c *stats.Case) { runCase(rt, c, 8186) })
+	stats.Check(t, stats.Budget{Quick: 30, Thorough: 400}, rule, func(rt *rapid.T, c *stats.Case) { runCase(rt, c, 8186) })
 }
 
 func TestPropEventsTwoWindows(t *testing.T) {
 	if !stats.Thorough() {
 		t.Skip("thorough tier only")
 	}
-	stats.Check(t, stats.Budget{Quick: 1, Thorough: 300}, rule, func(rt *rapid.T, c *stats.Case) { runCase(rt, c, 16378) })
+	stats.Check(t, stats.Budget{Quick: 1, Thorough: 100}, rule, func(rt *rapid.T, c *stats.Case) { runCase(rt, c, 16378) })
 }
 
 // TestPropCacheAfterBoundaryReorg biases the history to the deep state the uniform state machine rarely
 // reaches: cross the window boundary (the first window gets persisted), warm the window cache with
 // queries, revert back across the boundary, follow a different fork across the boundary again, query.
 func TestPropCacheAfterBoundaryReorg(t *testing.T) {
-	stats.Check(t, stats.Budget{Quick: 12, Thorough: 400}, "scenario skeleton on the 8186-block base: store past block 8192, queries (warm the persisted-window cache), revert to a drawn height below the boundary, optional restart, different fork past the boundary, queries per address and unfiltered; same naive-scan oracle; non-trivial = always (reorg across a window boundary with warmed cache)",
+	stats.Check(t, stats.Budget{Quick: 12, Thorough: 150}, "scenario skeleton on the 8186-block base: store past block 8192, queries (warm the persisted-window cache), revert to a drawn height below the boundary, optional restart, different fork past the boundary, queries per address and unfiltered; same naive-scan oracle; non-trivial = always (reorg across a window boundary with warmed cache)",
 		func(rt *rapid.T, c *stats.Case) {
 			newState := rapid.Bool().Draw(rt, "newState")
 			bch, bdb := bases[8186].get(newState)
